@@ -241,6 +241,7 @@ func ExecBubble(t *testing.T, prop string, seed uint64, tier string, keep map[in
 		}()
 		synctest.Test(t, func(t *testing.T) {
 			runtime.SetSimSeed(H(seed, "runtime") | 1)
+			runtime.SetSimPath(H(seed, "root"))
 			r.start = time.Now()
 			r.T = t
 			func() {
